@@ -184,10 +184,24 @@ theorem get_extend_originals (m : AMap Reg) (l : List Reg) (k : Reg) :
       · have : x ≠ k := fun e => h2 e.symm
         simp [h1, h2, AMap.get_insert_ne m k x _ this]
 
-/-- every claim in the map before the rules at an entry node whose in-map is empty is of the
-    form "register r holds its entry value" -/
-theorem entry_preRules_claims (cn : CNode) (hentry : cn.node.isAnyEntry = true)
-    (k : Reg) (val : AVal) (h : AMap.get (preRules cn []) k = some val) : val = .ors k 0#32 := by
+/-- every claim in the map before the rules at a function's entry node (whatever came in), or at
+    an entry node whose in-map is empty, is of the form "register r holds its entry value" -/
+theorem entry_preRules_claims (cn : CNode) (inReg : AMap Reg) (hentry : cn.node.isAnyEntry = true)
+    (hin : cn.node.isFunctionEntry = true ∨ inReg = [])
+    (k : Reg) (val : AVal) (h : AMap.get (preRules cn inReg) k = some val) : val = .ors k 0#32 := by
+  have hpre : preRules cn inReg = preRules cn [] := by
+    rcases hin with hfe | he
+    · unfold preRules
+      simp only [hfe, if_true]
+      have hec : cn.node.isEcall = false := by
+        cases hc : cn.node <;> rw [hc] at hentry <;> simp [Node.isAnyEntry, Node.isEcall] at hentry ⊢
+      have hs1 : ecallSignature { cn with regIn := inReg } = none := by
+        unfold ecallSignature knownEcall; simp [hec]
+      have hs2 : ecallSignature { cn with regIn := [] } = none := by
+        unfold ecallSignature knownEcall; simp [hec]
+      simp only [hs1, hs2, hec, Bool.false_and]
+    · rw [he]
+  rw [hpre] at h
   unfold preRules at h
   have hcall : cn.node.callsTo = none := by
     cases hc : cn.node <;> rw [hc] at hentry <;> simp [Node.isAnyEntry, Node.callsTo] at hentry ⊢
@@ -220,12 +234,13 @@ theorem entry_preRules_claims (cn : CNode) (hentry : cn.node.isAnyEntry = true)
   intro v hv
   simp [AMap.get] at hv
 
-/-- **entries are sound**: at a function or program entry reached with no incoming claims, the
-    seeds hold as soon as the entry values are the current register values (the start of an
-    activation) -/
-theorem entry_transfer_sound (cn : CNode) (inMem : AMap MemLoc) (s' : MState)
-    (hentry : cn.node.isAnyEntry = true) (hact : ∀ r, s'.entry r = s'.reg r) (hz : s'.reg 0 = 0#32) :
-    Sound s' (nodeRegOut cn [] inMem) := by
+/-- **entries are sound**: at a function's entry node - whatever the code that falls or jumps
+    into it claims - and at a program entry reached with no incoming claims, the seeds hold as
+    soon as the entry values are the current register values (the start of an activation) -/
+theorem entry_transfer_sound (cn : CNode) (inReg : AMap Reg) (inMem : AMap MemLoc) (s' : MState)
+    (hentry : cn.node.isAnyEntry = true) (hin : cn.node.isFunctionEntry = true ∨ inReg = [])
+    (hact : ∀ r, s'.entry r = s'.reg r) (hz : s'.reg 0 = 0#32) :
+    Sound s' (nodeRegOut cn inReg inMem) := by
   have hw : cn.node.writesTo = none := by
     cases hc : cn.node <;> rw [hc] at hentry <;> simp [Node.isAnyEntry, Node.writesTo] at hentry ⊢
   have hnm : cn.node.noMemRead := by
@@ -233,9 +248,9 @@ theorem entry_transfer_sound (cn : CNode) (inMem : AMap MemLoc) (s' : MState)
     · cases hc : cn.node <;> rw [hc] at hentry <;> simp [Node.isAnyEntry, Node.readsFromMemory] at hentry ⊢
     · intro out inn
       cases hc : cn.node <;> rw [hc] at hentry <;> simp [Node.isAnyEntry, ruleExpandAddressForLoad] at hentry ⊢
-  apply rules_sound cn [] inMem s' hnm (by rw [hact 0]; exact hz)
+  apply rules_sound cn inReg inMem s' hnm (by rw [hact 0]; exact hz)
   · intro k val _ hget
-    rw [entry_preRules_claims cn hentry k val hget]
+    rw [entry_preRules_claims cn inReg hentry hin k val hget]
     show s'.reg k = s'.entry k + 0#32
     rw [hact k]; simp
   · intro rd x hw' _ _
@@ -257,7 +272,8 @@ inductive NodeStep' (g : Cfg) (i : Nat) (s s' : MState) : Prop where
   | ecall : (g.get i).node.isEcall = true →
       (∀ r, r ∉ ecallKills (g.get i) (g.get i).regIn → r ≠ 0 → s'.reg r = s.reg r) →
       s'.entry = s.entry → s'.addr = s.addr → NodeStep' g i s s'
-  | entry : (g.get i).node.isAnyEntry = true → (g.get i).regIn = [] →
+  | entry : (g.get i).node.isAnyEntry = true →
+      ((g.get i).node.isFunctionEntry = true ∨ (g.get i).regIn = []) →
       (∀ r, s'.entry r = s'.reg r) → s'.reg 0 = 0#32 → NodeStep' g i s s'
 
 inductive Exec' (g : Cfg) (V : List Nat) (i0 : Nat) (s0 : MState) : Nat → MState → Prop where
@@ -299,8 +315,7 @@ theorem exec_sound_full_inv (g : Cfg) (V : List Nat) (hf : GoodFacts g V) (i0 : 
       | ecall hec henv hentry haddr =>
         exact ecall_transfer_sound (g.get i) _ _ s s' hec ihe ihs henv hentry haddr
       | entry hen hempty hact hz =>
-        rw [hempty]
-        exact entry_transfer_sound (g.get i) _ s' hen hact hz
+        exact entry_transfer_sound (g.get i) _ _ s' hen hempty hact hz
     refine ⟨?_, hent⟩
     apply sound_of_get_eq s' _ _ (hf.eqIn j hj)
     apply meetOver_sound s' _ _ (g.get i).regOut _ hout
